@@ -786,6 +786,22 @@ py::list PyTreeSpec::FlattenUpTo(const py::object& full_tree) const {
                         << ", got: " << arity << "; value: " << PyRepr(object) << ".";
                     throw py::value_error(oss.str());
                 }
+                if (num_out == 3) [[likely]] {
+                    // Validate the entries like `Flatten()` does, although they are not used here.
+                    const py::object node_entries = TupleGetItem(out, 2);
+                    if (!node_entries.is_none()) [[likely]] {
+                        const ssize_t num_entries =
+                            TupleGetSize(thread_safe_cast<py::tuple>(node_entries));
+                        if (num_entries != arity) [[unlikely]] {
+                            std::ostringstream oss{};
+                            oss << "PyTree custom flatten function for type "
+                                << PyRepr(node.custom->type)
+                                << " returned inconsistent number of children (" << arity
+                                << ") and number of entries (" << num_entries << ").";
+                            throw std::runtime_error(oss.str());
+                        }
+                    }
+                }
                 break;
             }
 
